@@ -359,6 +359,9 @@ Proof.
   - constructor. apply lin_par_rl. assumption.
 Qed.
 
+Lemma executions_exist t : lin t (run_lr t) /\ lin t (run_rl t).
+Proof. split; [apply run_lr_lin | apply run_rl_lin]. Qed.
+
 (* the direct per-execution reading agrees with [before] *)
 Lemma pos_of_split e s i : pos_of e s = Some i ->
   exists s1 s2, s = s1 ++ e :: s2 /\ length s1 = i.
